@@ -63,7 +63,7 @@ func c12Scenarios(tier string) []*Scenario {
 		bound = vs.Unbounded
 		maxR = 3
 	}
-	kinds := []string{"success", "fail", "nohost", "norc", "noapp", "badapp", "vsabad", "vsavendor", "vsagood", "disconnect", "fail1001", "fail3004", "fail1"}
+	kinds := []string{"success", "fail", "nohost", "norc", "noapp", "badapp", "vsabad", "vsavendor", "vsagood", "disconnect", "fail1001", "fail3004", "fail1", "relayauth", "relayacct"}
 	extraSets := [][]string{nil, {"dup"}, {"latefail"}, {"raa"}, {"dup", "raa"}, {"latefail", "raa"}, {"raa", "dup", "raa"}}
 	var out []*Scenario
 	add := func(R int, script []c12Act, extras []string) {
@@ -80,7 +80,7 @@ func c12Scenarios(tier string) []*Scenario {
 				for d := 0; d <= 3; d++ {
 					sc := append([]c12Act{}, silent...)
 					sc[k] = c12Act{Kind: kind, Delay: d}
-					if kind == "vsabad" || kind == "vsavendor" || kind == "vsagood" || strings.HasPrefix(kind, "fail") && kind != "fail" {
+					if kind == "vsabad" || kind == "vsavendor" || kind == "vsagood" || strings.HasPrefix(kind, "fail") && kind != "fail" || strings.HasPrefix(kind, "relay") {
 						if d != 0 || k != 0 {
 							continue // application-shape variants: first CER, no delay
 						}
@@ -272,6 +272,25 @@ func c12ScenarioSlow(R int, script []c12Act, extras []string, bound int, slow []
 						deliver("norc", peerAnswerOpt(req, 2001, true, true, false))
 					case "noapp":
 						deliver("noapp", peerAnswer(req, 2001, false))
+					case "relayauth", "relayacct":
+						// a success CEA whose only application is the relay application id, which is
+						// common with every application
+						b := peerAnswer(req, 2001, false)
+						h, _ := refcodec.DecodeHeader(b)
+						recs, _, _ := refcodec.Frame(b[20:], nil)
+						var nodes []refcodec.Node
+						for _, r := range recs {
+							nodes = append(nodes, refcodec.Node{Code: r.Code, Flags: r.Flags, Vendor: r.Vendor, Payload: r.Payload})
+						}
+						code := uint32(258)
+						if act.Kind == "relayacct" {
+							code = 259
+						}
+						nodes = append(nodes, u32avp(code, 0xffffffff))
+						deliver("success", refcodec.EncodeMessage(h, nodes))
+						for _, ex := range extras {
+							_ = ex
+						}
 					case "badapp":
 						b := peerAnswer(req, 2001, false)
 						h, _ := refcodec.DecodeHeader(b)
